@@ -15,8 +15,9 @@ def showSlip (splits : List Nat) (stream : List Nat) : String :=
   let (pk, tail) := readAllC (Buffered.ofChunks cs)
   s!"pk={hexList pk} tail={toHex tail} end=eof"
 
-def showMux (stream : List Nat) : String :=
-  let pk := muxReadAll stream
+def showMux (splits : List Nat) (stream : List Nat) : String :=
+  let cs := chunkBy splits stream.length 0 stream
+  let pk := muxReadAllC (Buffered.ofChunks cs)
   if pk.isEmpty then "pk=none" else
   "pk=" ++ ",".intercalate (pk.map fun (ft, p) => (toHex [ft]) ++ ":" ++ toHex p)
 
@@ -46,13 +47,13 @@ def handle (line : String) : String :=
     | _, _ => "bad-op"
   | "mux" :: sp :: hs =>
     match parseSplits sp, hs.mapM parseFramed with
-    | some _, some fs =>
+    | some splits, some fs =>
       let stream := fs.flatMap fun (ft, p) => muxWrite ft p
-      s!"stream={toHex stream} " ++ showMux stream
+      s!"stream={toHex stream} " ++ showMux splits stream
     | _, _ => "bad-op"
   | ["rawmux", sp, h] =>
     match parseSplits sp, parseHex h with
-    | some _, some stream => showMux stream
+    | some splits, some stream => showMux splits stream
     | _, _ => "bad-op"
   | ["fcs", h] =>
     match parseHex h with
